@@ -77,6 +77,7 @@ static long arrSize(void* p)
 // ---------------------------------------------------------------------------------------------------------------
 // sanitizer report capture
 // ---------------------------------------------------------------------------------------------------------------
+static volatile int g_phaseForReport = 0;      // copy of g_phase (declared further down) at the time of a report
 static int g_asanReports = 0;
 static std::string g_asanWhat;
 #ifdef VERIF_ASAN
@@ -108,7 +109,7 @@ static void asanReport(const char* txt)
    }
 
    if(g_asanWhat.empty())
-      g_asanWhat = kind + "/" + rw + "/" + where;
+      g_asanWhat = std::string(g_phaseForReport ? "X" : "") + kind + "/" + rw + "/" + where;
 }
 #endif
 
@@ -642,6 +643,7 @@ static int cmdTable()
 // ---------------------------------------------------------------------------------------------------------------
 // run
 // ---------------------------------------------------------------------------------------------------------------
+static const unsigned WATCHDOG_S = 30;
 static sigjmp_buf g_jb;
 static volatile int g_armed = 0;
 static volatile int g_phase = 0;      // 1 while a C++ member runs on the mirror object on its own (forwarders, observation)
@@ -785,8 +787,10 @@ static void forward(Line& L, FC fc, FX fx)
 {
    // mirror first: if the C++ member itself faults, that is recorded as such and the C function is not called
    g_phase = 1;
+   g_phaseForReport = 1;
    std::string xe = guarded(fx);
    g_phase = 0;
+   g_phaseForReport = 0;
    std::string ce = guarded(fc);
 
    if(!ce.empty())
@@ -1699,6 +1703,7 @@ static int cmdRun(const char* casefile, const char* dir)
    signal(SIGSEGV, onSignal);
    signal(SIGBUS, onSignal);
    signal(SIGFPE, onSignal);
+   signal(SIGALRM, onSignal);      // watchdog: no call on these tiny LPs takes seconds
 #ifdef VERIF_ASAN
    __asan_set_error_report_callback(asanReport);
 #endif
@@ -1762,6 +1767,7 @@ static int cmdRun(const char* casefile, const char* dir)
       if(sig == 0)
       {
          g_armed = 1;
+         alarm(WATCHDOG_S);
 
          try
          {
@@ -1780,13 +1786,16 @@ static int cmdRun(const char* casefile, const char* dir)
             exc = "EXC:?";
          }
 
+         alarm(0);
          g_armed = 0;
       }
       else
       {
+         alarm(0);
          g_track = false;
          exc = std::string(g_phase ? "XSIGNAL:" : "SIGNAL:") + std::to_string(sig);
          g_phase = 0;
+         g_phaseForReport = 0;
          dead = true;
       }
 
@@ -1806,11 +1815,13 @@ static int cmdRun(const char* casefile, const char* dir)
          {
             g_armed = 1;
             g_phase = 1;
+            g_phaseForReport = 1;
             std::string e2 = guarded([&]()
             {
                dm = fullDump(*x.m);
             });
             g_phase = 0;
+            g_phaseForReport = 0;
 
             if(e2.empty())
                e2 = guarded([&]()
@@ -1830,6 +1841,7 @@ static int cmdRun(const char* casefile, const char* dir)
          {
             eq = std::string(g_phase ? "DUMPXSIGNAL:" : "DUMPSIGNAL:") + std::to_string(sig2);
             g_phase = 0;
+            g_phaseForReport = 0;
             dead = true;
          }
       }
@@ -1855,8 +1867,8 @@ static int cmdRun(const char* casefile, const char* dir)
          printf("DIFF x %s\n", dm.c_str());
       }
 
-      if(L.threw || !exc.empty())
-         dead = true;      // after an exception or a fault the objects are abandoned
+      if(L.threw || !exc.empty() || eq == "0")
+         dead = true;      // after an exception, a fault or a divergence of the two objects the case ends
 
       fflush(stdout);
       delete Lp;
